@@ -1,0 +1,32 @@
+//go:build verif
+
+// Contracts for the govc verifier (see /verif/DESIGN.md). Comment-only file.
+package checks
+
+//@ # ---------------------------------------------------------------- used checks (C21)
+//@ # a check redeemed in the current block is in usedChecks until the commit moves it into the tree; IsCheckUsed must
+//@ # see it there whatever else it consults, and must not keep any state of its own (no memoisation that UseCheck
+//@ # would have to invalidate)
+//@ func (*Checks).UseCheckHash
+//@   serves C21
+//@   requires c != nil
+//@   ensures marked: hash in c.usedChecks
+//@   ensures others: forall h types.Hash :: h != hash ==> ((h in c.usedChecks) <==> old(h in c.usedChecks))
+//@   modifies mapof(c.usedChecks)
+
+//@ func (*Checks).UseCheck
+//@   serves C21
+//@   requires c != nil && check != nil
+//@   ensures marked: checkHash(check) in c.usedChecks
+//@   ensures others: forall h types.Hash :: h != checkHash(check) ==> ((h in c.usedChecks) <==> old(h in c.usedChecks))
+//@   modifies mapof(c.usedChecks)
+
+//@ func (*Checks).IsCheckUsed
+//@   serves C21
+//@   requires c != nil && check != nil
+//@   ensures usedhere: checkHash(check) in c.usedChecks ==> result
+//@   modifies nothing
+
+//@ func iface RChecks.IsCheckUsed
+//@   ensures checkHash(arg0) in as(recv, "*Checks").usedChecks ==> result
+//@   modifies nothing
